@@ -143,7 +143,7 @@ def flipLoop (s : St) : List Nat → R St
   | [] => pure s
   | i :: rest => do
     let p ← getPt s.glyph i
-    flipLoop { s with glyph := s.glyph.set i { p with on := ¬ p.on } } rest
+    flipLoop { s with glyph := s.glyph.set i (flipPt p) } rest
 
 /-- `Ins_SCANCTRL` (`tt_metrics.rotated` / `stretched` false): `A = (FT_Int)( args[0] & 0xFF )`. -/
 def scanctrl (n ppem : Int) (sc : Bool) : Bool :=
@@ -265,7 +265,7 @@ def step (op imm : Int) (s : St) : R St := do
   else if op = 0x29 then do
     let (i, s) ← s.popIdx
     let p ← getZ s s.zp0 i
-    pure (setZ s s.zp0 i { p with tx := if s.fv.x ≠ 0 then false else p.tx, ty := if s.fv.y ≠ 0 then false else p.ty })
+    pure (setZ s s.zp0 i (utp s.fv p))
   else if op = 0x2E ∨ op = 0x2F then do
     let (i, s) ← s.popIdx
     let p ← getZ s s.zp0 i
@@ -445,7 +445,7 @@ def step (op imm : Int) (s : St) : R St := do
     let (lo, s) ← s.popIdx
     if s.bc ∧ s.iupx ∧ s.iupy then pure s
     else if hi ≥ s.glyph.length ∨ lo ≥ s.glyph.length then throw "oob"
-    else pure { s with glyph := (s.glyph.zipIdx).map fun (p, i) => if lo ≤ i ∧ i ≤ hi then { p with on := op = 0x81 } else p }
+    else pure { s with glyph := flipRange s.glyph lo hi (op = 0x81) }
   else if op = 0x85 then do
     let (n, s) ← s.pop
     pure { s with scanControl := scanctrl n s.ppem s.scanControl }
